@@ -130,15 +130,7 @@ Proof.
 Qed.
 
 (* ---------- every step ---------- *)
-Hypothesis HQ_new : forall id w k t, Q (set_orig_started (new_stream id w) k t).
-Hypothesis HQ_closed : forall s, Q s -> Q (set_state s SClosed).
-Hypothesis HQ_handle_state : forall fr s, Q s -> Q (handle_state fr s).
-Hypothesis HQ_weReset : forall s, Q s -> Q (set_weReset s).
-Hypothesis HQ_flags : forall s a b d, Q s -> Q (set_flags s a b d).
-Hypothesis HQ_window : forall s w, Q s -> Q (set_window s w).
-Hypothesis HQ_snd : forall s n, Q s -> Q (set_snd s n).
-Hypothesis HQ_frame : forall c s fr c' s' e, Q s -> handle_frame dec_field cfg c s fr = (c', s', e) ->
-  (forall code, e <> Some (EGoAway code)) -> Q s'.
+Hypothesis HQc : Qclosed hstate dec_field cfg Q.
 
 (* the shape of a step: EvDone either does nothing or starts with the return of that handler;
    every other event is a few moves of the environment / read loop followed by unlabelled stream-loop moves *)
@@ -162,14 +154,14 @@ Proof.
     + eexists. split; [|constructor].
       destruct (sc_rl_done c) eqn:Hr; [|constructor]. apply omvs_one, omv_slexit; assumption.
     + exists (upd_readerQ c q). split; [apply omvs_one, (omv_pop _ c fr q); assumption|].
-      apply (mvs_sl_frame hstate dec_field enc_set_max cfg Q HQ_new HQ_closed HQ_handle_state HQ_weReset HQ_flags HQ_window HQ_snd HQ_frame (upd_readerQ c q) fr Hd (IO eq_refl)).
+      apply (mvs_sl_frame hstate dec_field enc_set_max cfg Q HQc (upd_readerQ c q) fr Hd (IO eq_refl)).
   - rewrite step_EvDone. destruct (sc_sl_done c) eqn:Hd; [left; split; [reflexivity | left; assumption]|].
-    destruct (mvs_sl_done hstate dec_field enc_field cfg Q HQ_closed HQ_weReset HQ_flags HQ_snd c sid r Hd) as [(E & N1 & N2)|(b & M1 & M)].
+    destruct (mvs_sl_done hstate dec_field enc_field cfg Q HQc c sid r Hd) as [(E & N1 & N2)|(b & M1 & M)].
     + left. split; [assumption | right; split; assumption].
     + right. split; [reflexivity|]. exists b. split; assumption.
   - rewrite step_EvClock. eexists. split; [|constructor]. destruct (_ <? _)%Z; [apply omvs_one, omv_now | constructor].
   - rewrite step_EvTimer. exists c. split; [constructor|]. destruct (sc_sl_done c) eqn:Hd; [constructor|].
-    apply mvs_sl_timer. assumption.
+    apply mvs_sl_timer; assumption.
   - rewrite step_EvIdle. eexists. split; [apply omvs_one, omv_idle; reflexivity | constructor].
   - rewrite step_EvCloser. exists c. split; [constructor|]. destruct (_ && _)%bool eqn:B; [|constructor].
     apply andb_prop in B. destruct B as [_ B]. apply negb_true_iff in B.
